@@ -238,6 +238,10 @@ func cmdCheck(args []string) int {
 			engineErr += fmt.Sprintf("vacuity: no return of %s is reachable under its contract\n", r.Key)
 		}
 	}
+	for _, ov := range p.checkOwnership() {
+		generated["ownership"] = true
+		viols = append(viols, violation{Obligation: "ownership", Kind: "ownership", Status: "error", Reason: "the ownership discipline assumed by `//@ owned` no longer holds: " + ov})
+	}
 	if *writeLock {
 		var names []string
 		for n := range generated {
